@@ -12,17 +12,22 @@ F.spec("better(ncol, orientation, data, i, j, q)",
        "isnan(data[ncol*j+q]) or isnan(data[ncol*i+q]) or real(orientation)*(data[ncol*j+q] - data[ncol*i+q]) > 0")
 F.spec("dominates(ncol, orientation, data, i, j)", "forall(q, 0 <= q < ncol, better(ncol, orientation, data, i, j, q))")
 K.ensures("result == 0")
+# dm(p, j): point j is strictly better than point p in every non-missing coordinate (a ghost function, so that the solver has the
+# atom dm(p, j) to instantiate on; its definition is the spec `dominates`)
+K.ghost("dm(p, j)", "bool", "dominates(ncol, orientation, data, p, j)")
 # C20: a point is flagged exactly when another point is strictly better in every non-missing coordinate
-K.ensures("forall(p, 0 <= p < nval, iff(isdominated[p] == 1, exists(j, 0 <= j < nval, j != p and dominates(ncol, orientation, data, p, j))))", props=["C20"])
+K.ensures("forall(p, 0 <= p < nval, iff(isdominated[p] == 1, exists(j, 0 <= j < nval, j != p and dm(p, j))))", props=["C20"])
 K.ensures("forall(p, 0 <= p < nval, isdominated[p] == 0 or isdominated[p] == 1)", props=["C20"])
 K.loop(0, var="i", invariant=[
     "0 <= i and i <= nval and orientationd == real(orientation)",
     "forall(p, 0 <= p < i, isdominated[p] == 0 or isdominated[p] == 1)",
-    "forall(p, 0 <= p < i, iff(isdominated[p] == 1, exists(j, 0 <= j < nval, j != p and dominates(ncol, orientation, data, p, j))))"])
+    # the equivalence is carried as its two directions: a flagged point has a dominating point, an unflagged one has none
+    "forall(p, 0 <= p < i, implies(isdominated[p] == 1, exists(j, 0 <= j < nval, j != p and dm(p, j))))",
+    "forall(p, 0 <= p < i, forall(j, 0 <= j < nval, implies(isdominated[p] == 0 and j != p, not dm(p, j)), dm(p, j)))"])
 K.loop(1, var="j", invariant=[
     "0 <= i and i < nval and 0 <= j and j <= nval and orientationd == real(orientation) and isdominated[i] == 0",
     "forall(p, 0 <= p < nval, implies(p != i, isdominated[p] == at_loop_entry(isdominated[p])))",
-    "forall(jj, 0 <= jj < j, jj == i or not dominates(ncol, orientation, data, i, jj))"])
+    "forall(jj, 0 <= jj < j, jj == i or not dm(i, jj), dm(i, jj))"])
 K.loop(2, var="k", invariant=[
     "0 <= i and i < nval and 0 <= j and j < nval and i != j and 0 <= k and k <= ncol and (dom == 0 or dom == 1) and orientationd == real(orientation)",
     "iff(dom == 1, forall(q, 0 <= q < k, better(ncol, orientation, data, i, j, q)))"])
